@@ -148,35 +148,47 @@ func (s *Solver) readSexp() (string, error) {
 
 var totalQueries int64
 
-// checkSat sends (check-sat) and returns sat|unsat|unknown; any error line
-// yields "unknown" (inconclusive, never success).
+// checkSat sends (check-sat) followed by an echo marker and reads up to the
+// marker, so that stray output (errors of earlier commands) can never be
+// mistaken for, or desynchronise, an answer. Any error line yields "unknown"
+// (inconclusive, never success).
 func (s *Solver) checkSat() string {
 	if s.dead {
 		return "unknown"
 	}
 	t0 := time.Now()
-	s.send("(check-sat)")
-	atomic.AddInt64(&totalQueries, 1)
 	s.nQuery++
+	marker := fmt.Sprintf("sync-%d", s.nQuery)
+	s.send("(check-sat)")
+	s.send("(echo \"" + marker + "\")")
+	atomic.AddInt64(&totalQueries, 1)
+	ans := ""
+	errLine := ""
 	for {
 		l, err := s.readLine()
-		s.tQuery += time.Since(t0)
 		if err != nil {
+			s.tQuery += time.Since(t0)
 			return "unknown"
+		}
+		l = strings.Trim(l, "\"")
+		if l == marker {
+			break
 		}
 		switch {
 		case l == "sat" || l == "unsat" || l == "unknown":
-			return l
+			ans = l
 		case strings.HasPrefix(l, "(error"):
-			// drain? errors are single s-exprs on one line in z3
-			return "unknown:" + l
-		default:
-			// unexpected chatter (warnings); keep reading
-			if strings.HasPrefix(l, "timeout") {
-				return "unknown"
-			}
+			errLine = l
 		}
 	}
+	s.tQuery += time.Since(t0)
+	if errLine != "" {
+		return "unknown:" + errLine
+	}
+	if ans == "" {
+		return "unknown"
+	}
+	return ans
 }
 
 // getValues asks for the values of the given variables after a sat answer.
